@@ -8,6 +8,16 @@ ENV = dict(os.environ, CARGO_NET_OFFLINE="true")
 ENV.pop("RUSTFLAGS", None)
 
 
+def load_factor():
+    """Timeouts are wall-clock; on a machine that is busy with other work (load above the core count) every
+    verifier run is proportionally slower.  Scale the timeouts by load / cores, between 1 and 5, so that a busy
+    machine yields a slower answer instead of an 'undecided'."""
+    try:
+        return max(1.0, min(5.0, os.getloadavg()[0] / (os.cpu_count() or 16)))
+    except OSError:
+        return 1.0
+
+
 def sh(cmd, cwd=None, timeout=None, env=None):
     t0 = time.time()
     try:
@@ -67,7 +77,7 @@ class KaniEngine:
             return {"fatal": f"prepare failed: {e!r}", "unit": {"cmd": "", "sources": {}}, "harnesses": {}}
         crate = info["crate_dir"]
         names = [h["name"] for h in harnesses]
-        tmo = max(h["timeout"] for h in harnesses) * (1 if tier == "quick" else 4)
+        tmo = int(max(h["timeout"] for h in harnesses) * (1 if tier == "quick" else 4) * load_factor())
         jpath = os.path.join(VERIF, ".work", f"{self.name}-result-{os.getpid()}.json")
         if os.path.exists(jpath):
             os.remove(jpath)
@@ -359,7 +369,7 @@ class VerusEngine:
             srcs[unit] = manifest
             cmd = ["verus", out_rs, "--output-json", "--time", "--multiple-errors", "20", "--rlimit", "60" if tier == "quick" else "240"]
             cmds.append(" ".join(cmd))
-            tmo = h["timeout"] * (1 if tier == "quick" else 4)
+            tmo = int(h["timeout"] * (1 if tier == "quick" else 4) * load_factor())
             p = subprocess.run(cmd, stdout=subprocess.PIPE, stderr=subprocess.PIPE, text=True, env=ENV,
                                timeout=None if tmo is None else tmo + 60, errors="replace")
             try:
